@@ -108,8 +108,12 @@ _LEGACY: dict = {}  # file name -> payload spec, for the legacy entry (payloads 
 
 def work(payload, *args, **kwargs):
     """The user function run for every payload; its behaviour is fixed by the spec."""
-    if isinstance(payload, Path) or not hasattr(payload, "behave"):
-        name = payload.name if isinstance(payload, Path) else Path(str(payload.path)).name
+    if isinstance(payload, Path):
+        # taskproc's backwards-compatibility retry called us again with the bare path: a function written for payload
+        # objects does something else with a path, it does not repeat itself
+        return ["called-again-with-path", payload.name]
+    if not hasattr(payload, "behave"):
+        name = Path(str(payload.path)).name
         p = _LEGACY[name]
         if p["behave"] == "ok":
             return p["value"] if p.get("ret") == "raw" else [p["value"], list(args), sorted(kwargs.items())]
@@ -438,7 +442,35 @@ def window_relation(spec):
     return "n<w" if n < w else ("n=w" if n == w else "n>w")
 
 
+_MODULE_CODE: dict = {}
+
+
+def fresh_modules():
+    """Module-level state of the code under test must not survive from one run into the next (a run has to be a pure
+    function of its seed, or minimisation and replay break): the function-only modules of tatsu.parproc are re-executed
+    in place before every run.  result.py / payload.py / summary.py only define data classes and keep their identity."""
+    import tatsu.parproc  # noqa: F401
+
+    for name in ("tatsu.parproc.task", "tatsu.parproc.pmap", "tatsu.parproc.parproc", "tatsu.parproc.visual", "tatsu.parproc.legacy"):
+        mod = sys.modules.get(name)
+        if mod is None:
+            continue
+        code = _MODULE_CODE.get(name)
+        if code is None:
+            with open(mod.__file__, encoding="utf-8") as f:
+                code = _MODULE_CODE[name] = compile(f.read(), mod.__file__, "exec")
+        exec(code, mod.__dict__)  # noqa: S102
+    import tatsu.parproc as pp
+
+    # the package re-exports these by value
+    pp.parproc = sys.modules["tatsu.parproc.parproc"].__dict__["parproc"]
+    pp.parallel_proc = sys.modules["tatsu.parproc.legacy"].__dict__["parallel_proc"]
+    pp.processing_loop = sys.modules["tatsu.parproc.legacy"].__dict__["processing_loop"]
+    pp.parproc_visual = sys.modules["tatsu.parproc.visual"].__dict__["parproc_visual"]
+
+
 def run(spec: dict, decider: Decider, keep_events: bool = False) -> RunResult:
+    fresh_modules()
     from tatsu.parproc.result import Result
 
     rr = RunResult()
